@@ -2,6 +2,7 @@
 //! /repo's working tree with the `_verif_hooks` feature) on generated cases and
 //! writes transcripts for the Lean model driver.
 mod capi;
+mod c15;
 mod capisuite;
 mod fmt;
 mod gen;
@@ -41,10 +42,19 @@ fn arg_val(args: &[String], name: &str) -> Option<String> {
         .and_then(|i| args.get(i + 1).cloned())
 }
 
-fn cfg_line(root: &Root, emulated: bool, rflags: ResolverFlags) -> String {
+pub fn protected_symlinks() -> u32 {
+    fs::read_to_string("/proc/sys/fs/protected_symlinks")
+        .ok()
+        .and_then(|s| s.trim().parse().ok())
+        .unwrap_or(0)
+}
+
+pub static PSL_AT_START: std::sync::atomic::AtomicU32 = std::sync::atomic::AtomicU32::new(0);
+
+pub fn cfg_line(root: &Root, emulated: bool, rflags: ResolverFlags) -> String {
     let (pfd, pmnt, psub, pemu) = verif::procfs_describe(verif::global_procfs());
     format!(
-        "cfg backend={} rflags={} rootfd={} procfd={} procmnt={} subset={} procemu={} openat2={}",
+        "cfg backend={} rflags={} rootfd={} procfd={} procmnt={} subset={} procemu={} openat2={} psl={}",
         if emulated { "e" } else { "k" },
         rflags.bits(),
         root.as_fd().as_raw_fd(),
@@ -53,6 +63,7 @@ fn cfg_line(root: &Root, emulated: bool, rflags: ResolverFlags) -> String {
         psub as u8,
         pemu as u8,
         verif::openat2_is_supported() as u8,
+        PSL_AT_START.load(Ordering::SeqCst),
     )
 }
 
@@ -290,9 +301,11 @@ fn main() {
         out,
         no_openat2,
     };
+    PSL_AT_START.store(protected_symlinks(), Ordering::SeqCst);
     warm_up(&work);
     match cmd.as_str() {
         "probe" => probe(&mut ctx),
+        "c15" => c15::suite(&mut ctx),
         "capi-args" => capisuite::suite_capi_args(&mut ctx, args.iter().any(|a| a == "--thorough")),
         "errtable" => {
             let threads: usize = arg_val(&args, "--threads").and_then(|s| s.parse().ok()).unwrap_or(8);
